@@ -188,6 +188,16 @@ func c07options(g *Gen) {
 				ops = append(ops, op{kind: "sym", pkg: pkg})
 			}
 		}
+		if i%4 == 2 {
+			// package-less names that are not builtins (an unnamed composite type such as []string has Name.Package
+			// "", so has a symbol like len): they are nobody's import, whatever the output package is
+			if local == "" {
+				local = "local/out"
+			}
+			at := g.R.Intn(len(ops) + 1)
+			ops = append(ops[:at], append([]op{{kind: "type", pkg: ""}, {kind: "sym", pkg: ""}}, ops[at:]...)...)
+			cls["package-less-name-with-named-output-package"] = true
+		}
 		var universe, extra, opsS, desc []string
 		seenU, seenX := map[string]bool{}, map[string]bool{}
 		for _, o := range ops {
